@@ -477,7 +477,7 @@ fn case(src: &mut Src, ctx: &mut Ctx) -> Result<(), Fail> {
 pub fn prop() -> Prop {
     Prop {
         id: "C04",
-        parts: vec![Part { name: "receiver", case, quick: 40_000, thorough: 2_000_000 }],
+        parts: vec![Part { name: "receiver", case, quick: 200_000, thorough: 5_000_000 }],
         phases: vec![],
         smoltcp_panic_is_violation: true,
         rule: "one TCP socket (rx buffer 1..=200000, listen or connect, IPv4/IPv6, peer ISN biased to wrap points, handshake options drawn) fed by a scripted peer that owns a fixed byte stream and sends <=200 segments placed relative to the window the socket currently advertises (old, left-overlapping, in order, hole-creating, straddling/just beyond/far beyond the right edge, with FIN only at the end of the stream), interleaved with application reads and time advances; oracle = reference receiver built from the segments delivered and the windows read off the socket's own emitted segments by an independent TCP decoder; non-trivial = at least one data segment partly outside the window or overlapping delivered data, and at least one application read; distinct by digest of (config, segment list)",
